@@ -131,7 +131,7 @@ def classes(h):
 
 
 def shard(ctx, i, acc):
-    n = 5 if ctx['tier'] == 'quick' else 60
+    n = 5 if ctx['tier'] == 'quick' else 40
     explore(ctx, i, acc, monitors, n, nontrivial=nontrivial, classes=classes,
             body=body_factory(set()))
 
